@@ -73,6 +73,336 @@ def gen_classes(L, meta):
     L.append('def groupableInner : List Cls := [%s]' % ', '.join('.' + n for n in over))
 
 
+# --- grouping tables (engine/grouping.py) ------------------------------------------------------
+def _cls_name(c):
+    from sqlparse import sql
+    if not (isinstance(c, type) and issubclass(c, sql.TokenList)):
+        raise TranslateError('not a TokenList class: %r' % (c,))
+    return '.' + c.__name__
+
+
+def _is_tt(x):
+    from sqlparse import tokens
+    return isinstance(x, tokens._TokenType)
+
+
+def _is_mpat(v):
+    return (isinstance(v, tuple) and not _is_tt(v) and len(v) == 2 and _is_tt(v[0])
+            and (v[1] is None or isinstance(v[1], str)
+                 or (isinstance(v[1], tuple) and v[1] and all(isinstance(s, str) for s in v[1]))))
+
+
+def targ(v):
+    """the `t=` argument of imt as a Lean TArg: single type / list = hierarchical, plain tuple = equality"""
+    if _is_tt(v):
+        return '(.hier [%s])' % lean_ttype(v)
+    if isinstance(v, list) and v and all(_is_tt(x) for x in v):
+        return '(.hier [%s])' % ', '.join(lean_ttype(x) for x in v)
+    if isinstance(v, tuple) and v and all(_is_tt(x) for x in v):
+        return '(.exact [%s])' % ', '.join(lean_ttype(x) for x in v)
+    raise TranslateError('not a t= argument: %r' % (v,))
+
+
+def _table_value(v, where):
+    """classify an evaluated constant tuple of grouping.py -> (lean type, lean term)"""
+    from sqlparse import sql
+    if _is_tt(v):
+        return 'TArg', targ(v)
+    if isinstance(v, type) and issubclass(v, sql.TokenList):
+        return 'List Cls', '[%s]' % _cls_name(v)
+    if isinstance(v, tuple) and v and all(isinstance(x, type) for x in v):
+        return 'List Cls', '[%s]' % ', '.join(_cls_name(x) for x in v)
+    if isinstance(v, tuple) and v and all(_is_tt(x) for x in v):
+        return 'TArg', targ(v)
+    if _is_mpat(v):
+        return 'List MPat', mpats(v)
+    if isinstance(v, (tuple, list)) and v and all(_is_mpat(x) for x in v):
+        return 'List MPat', mpats(list(v))
+    raise TranslateError('%s: constant of a shape the translator does not understand: %r' % (where, v))
+
+
+def _const_expr(node):
+    """is this expression built only from tuples, `+`, names, attribute chains and string constants?"""
+    if isinstance(node, ast.Tuple):
+        return all(_const_expr(e) for e in node.elts)
+    if isinstance(node, ast.BinOp) and isinstance(node.op, ast.Add):
+        return _const_expr(node.left) and _const_expr(node.right)
+    if isinstance(node, ast.Attribute):
+        return _const_expr(node.value)
+    if isinstance(node, ast.Name):
+        return True
+    if isinstance(node, ast.Constant) and isinstance(node.value, str):
+        return True
+    return False
+
+
+
+def _resolvable(node, ns):
+    """constant expression all of whose names live in the module namespace (not locals)"""
+    if not _const_expr(node):
+        return False
+    return all(n.id in ns for n in ast.walk(node) if isinstance(n, ast.Name))
+
+
+def _inline_constants(fname, fn, ns, L, meta):
+    """constants written inline in calls/comparisons of a pass: `x.match(T.P, '::')`, `imt(x, i=…, m=…, t=…)`,
+    `token_next_by(…)`, `isinstance(x, C)`, `group_tokens(C, …, extend=…)`, `x.ttype == T.X`, `x.ttype not in (…)`,
+    `x.ttype = T.X`.  Names: <function>_<callee><n>[_<arg>], n counting the calls of that callee in source order."""
+    counters = {}
+
+    def ev(node):
+        return eval(compile(ast.Expression(node), '<inline>', 'eval'), ns)
+
+    def emit(name, ty, term, v):
+        L.append('def %s_%s : %s := %s' % (fname, name, ty, term))
+        meta['%s_%s' % (fname, name)] = repr(v)
+
+    def nxt(callee):
+        counters[callee] = counters.get(callee, 0) + 1
+        return counters[callee] - 1
+
+    class V(ast.NodeVisitor):
+        def visit_Call(self, call):
+            f = call.func
+            callee = f.id if isinstance(f, ast.Name) else f.attr if isinstance(f, ast.Attribute) else None
+            if callee == 'match':
+                n = nxt('match')
+                if len(call.args) == 1 and isinstance(call.args[0], ast.Starred) and _resolvable(call.args[0].value, ns) \
+                        and not call.keywords:
+                    v = ev(call.args[0].value)
+                    if not _is_mpat(v):
+                        raise TranslateError('%s: match(*x) with x not a (ttype, values) pair' % fname)
+                    emit('match%d' % n, 'List MPat', mpats(v), v)
+                elif len(call.args) == 2 and not call.keywords and all(_resolvable(a, ns) for a in call.args):
+                    v = (ev(call.args[0]), ev(call.args[1]))
+                    if not _is_mpat(v):
+                        raise TranslateError('%s: match(a, b) with constants of unknown shape' % fname)
+                    emit('match%d' % n, 'List MPat', mpats(v), v)
+                elif len(call.args) == 2 and not call.keywords and not any(_resolvable(a, ns) for a in call.args):
+                    pass  # match(ttype, value) over loop variables
+                else:
+                    raise TranslateError('%s: call of .match of unknown shape at line %d' % (fname, call.lineno))
+            elif callee in ('imt', 'token_next_by'):
+                n = nxt(callee)
+                args = {}
+                pos = call.args[1:] if callee == 'imt' else call.args
+                for nm, a in zip(('i', 'm', 't'), pos):
+                    args[nm] = a
+                for kw in call.keywords:
+                    args[kw.arg] = kw.value
+                for nm, a in args.items():
+                    if nm in ('idx', 'end'):
+                        continue
+                    if nm not in ('i', 'm', 't'):
+                        raise TranslateError('%s: unknown argument %s of %s' % (fname, nm, callee))
+                    if not _resolvable(a, ns):
+                        if isinstance(a, ast.Name):
+                            continue  # a local table, emitted under its own name
+                        raise TranslateError('%s: argument %s of %s of unknown shape' % (fname, nm, callee))
+                    v = ev(a)
+                    ty, term = _table_value(v, '%s %s%d %s' % (fname, callee, n, nm))
+                    want = {'i': 'List Cls', 'm': 'List MPat', 't': 'TArg'}[nm]
+                    if ty != want:
+                        raise TranslateError('%s: argument %s of %s is a %s' % (fname, nm, callee, ty))
+                    emit('%s%d_%s' % (callee, n, nm), ty, term, v)
+            elif callee == 'isinstance':
+                n = nxt(callee)
+                if len(call.args) == 2 and _resolvable(call.args[1], ns):
+                    v = ev(call.args[1])
+                    ty, term = _table_value(v, '%s isinstance%d' % (fname, n))
+                    if ty != 'List Cls':
+                        raise TranslateError('%s: isinstance against a non-class' % fname)
+                    emit('isinstance%d' % n, ty, term, v)
+                else:
+                    raise TranslateError('%s: isinstance of unknown shape' % fname)
+            elif callee == 'group_tokens':
+                n = nxt(callee)
+                if not call.args or not _resolvable(call.args[0], ns):
+                    raise TranslateError('%s: group_tokens with a non-constant class' % fname)
+                v = ev(call.args[0])
+                emit('group_tokens%d_cls' % n, 'Cls', _cls_name(v), v)
+                ext = False
+                for kw in call.keywords:
+                    if kw.arg == 'extend' and isinstance(kw.value, ast.Constant) and isinstance(kw.value.value, bool):
+                        ext = kw.value.value
+                    else:
+                        raise TranslateError('%s: group_tokens keyword of unknown shape' % fname)
+                if len(call.args) != 3:
+                    raise TranslateError('%s: group_tokens with %d positional arguments' % (fname, len(call.args)))
+                emit('group_tokens%d_extend' % n, 'Bool', 'true' if ext else 'false', ext)
+            self.generic_visit(call)
+
+        def visit_Compare(self, cmp):
+            if len(cmp.ops) == 1 and isinstance(cmp.left, ast.Attribute) and cmp.left.attr == 'ttype' \
+                    and _resolvable(cmp.comparators[0], ns):
+                n = nxt('ttype_cmp')
+                v = ev(cmp.comparators[0])
+                op = type(cmp.ops[0]).__name__
+                if op in ('Eq', 'NotEq', 'Is', 'IsNot') and _is_tt(v):
+                    emit('ttype_cmp%d' % n, 'TType', lean_ttype(v), (op, v))
+                elif op in ('In', 'NotIn') and (_is_tt(v) or isinstance(v, tuple)):
+                    emit('ttype_cmp%d' % n, 'TArg', targ(v), (op, v))
+                else:
+                    raise TranslateError('%s: comparison of .ttype of unknown shape at line %d' % (fname, cmp.lineno))
+            self.generic_visit(cmp)
+
+        def visit_Assign(self, a):
+            if len(a.targets) == 1 and isinstance(a.targets[0], ast.Attribute) and a.targets[0].attr == 'ttype':
+                if not _resolvable(a.value, ns) or not _is_tt(ev(a.value)):
+                    raise TranslateError('%s: assignment to .ttype of unknown shape' % fname)
+                n = nxt('ttype_set')
+                emit('ttype_set%d' % n, 'TType', lean_ttype(ev(a.value)), ev(a.value))
+            elif any(isinstance(t, ast.Attribute) for t in a.targets):
+                raise TranslateError('%s: attribute assignment at line %d' % (fname, a.lineno))
+            self.generic_visit(a)
+
+    V().visit(fn)
+
+
+def gen_grouping(meta):
+    """pass order of `grouping.group`, the module's T_* tuples, and per pass: decorator classes, the class and
+    flags of every `_group`/`_group_matching` call, every constant tuple assigned inside the function"""
+    from sqlparse.engine import grouping
+    from sqlparse import sql
+    ns = vars(grouping)
+    tree = ast.parse(inspect.getsource(grouping))
+    L = ['import SqlModel.Tree', 'namespace Sql.Gen']
+    funcs = {}
+    for node in tree.body:
+        if isinstance(node, (ast.Import, ast.ImportFrom)):
+            continue
+        if isinstance(node, ast.Expr) and isinstance(node.value, ast.Constant):
+            continue  # docstring
+        if isinstance(node, ast.Assign):
+            if len(node.targets) != 1 or not isinstance(node.targets[0], ast.Name) or not _const_expr(node.value):
+                raise TranslateError('grouping.py: module-level assignment of unknown shape at line %d' % node.lineno)
+            name = node.targets[0].id
+            ty, term = _table_value(ns[name], 'grouping.' + name)
+            L.append('def %s : %s := %s' % (name, ty, term))
+            meta[name] = repr(ns[name])
+            continue
+        if isinstance(node, ast.FunctionDef):
+            funcs[node.name] = node
+            continue
+        raise TranslateError('grouping.py: module-level statement of unknown kind at line %d' % node.lineno)
+    for req in ('group', '_group', '_group_matching'):
+        if req not in funcs:
+            raise TranslateError('grouping.py: function %s not found' % req)
+
+    # --- pass order: `for func in [ … ]: func(stmt)`  then `return stmt`
+    g = funcs['group']
+    body = [n for n in g.body if not (isinstance(n, ast.Expr) and isinstance(n.value, ast.Constant))]
+    ok = (len(body) == 2 and isinstance(body[0], ast.For) and isinstance(body[0].iter, ast.List)
+          and isinstance(body[0].target, ast.Name) and not body[0].orelse and len(body[0].body) == 1
+          and isinstance(body[0].body[0], ast.Expr) and isinstance(body[0].body[0].value, ast.Call)
+          and isinstance(body[0].body[0].value.func, ast.Name)
+          and body[0].body[0].value.func.id == body[0].target.id
+          and len(body[0].body[0].value.args) == 1 and not body[0].body[0].value.keywords
+          and isinstance(body[0].body[0].value.args[0], ast.Name)
+          and body[0].body[0].value.args[0].id == g.args.args[0].arg
+          and isinstance(body[1], ast.Return) and isinstance(body[1].value, ast.Name)
+          and body[1].value.id == g.args.args[0].arg)
+    if not ok:
+        raise TranslateError('grouping.group: body is not `for func in [...]: func(stmt)` + `return stmt`')
+    order = []
+    for e in body[0].iter.elts:
+        if not isinstance(e, ast.Name) or e.id not in funcs:
+            raise TranslateError('grouping.group: pass list element is not a module-level function')
+        order.append(e.id)
+    L.append('/-- the pass list of `grouping.group`, in order -/')
+    L.append('def passOrder : List String := [%s]' % ', '.join(lean_str(n) for n in order))
+    meta['passOrder'] = order
+
+    # --- per pass
+    for fname, fn in funcs.items():
+        if fname in ('group', '_group', '_group_matching'):
+            continue
+        # decorators
+        if not fn.decorator_list:
+            L.append('def %s_recurseSkip : Option (List Cls) := none' % fname)
+        else:
+            if len(fn.decorator_list) != 1:
+                raise TranslateError('%s: more than one decorator' % fname)
+            d = fn.decorator_list[0]
+            if not (isinstance(d, ast.Call) and isinstance(d.func, ast.Name) and d.func.id == 'recurse' and not d.keywords):
+                raise TranslateError('%s: decorator is not recurse(...)' % fname)
+            if ns.get('recurse') is not __import__('sqlparse.utils', fromlist=['recurse']).recurse:
+                raise TranslateError('grouping.recurse is not utils.recurse')
+            classes = [eval(compile(ast.Expression(a), '<dec>', 'eval'), ns) for a in d.args]
+            L.append('def %s_recurseSkip : Option (List Cls) := some [%s]' % (fname, ', '.join(_cls_name(c) for c in classes)))
+            meta[fname + '.recurse'] = [c.__name__ for c in classes]
+        # calls of the generic drivers (top-level statements of the function body only)
+        k = 0
+        for st in fn.body:
+            if not (isinstance(st, ast.Expr) and isinstance(st.value, ast.Call) and isinstance(st.value.func, ast.Name)):
+                continue
+            call = st.value
+            if call.func.id == '_group_matching':
+                if len(fn.body) != 1 or len(call.args) != 2 or call.keywords:
+                    raise TranslateError('%s: unexpected shape around _group_matching' % fname)
+                c = eval(compile(ast.Expression(call.args[1]), '<cls>', 'eval'), ns)
+                for attr in ('M_OPEN', 'M_CLOSE'):
+                    if not _is_mpat(getattr(c, attr, None)):
+                        raise TranslateError('%s.%s is not a single (ttype, values) pattern' % (c.__name__, attr))
+                L.append('def %s_matchingCls : Cls := %s' % (fname, _cls_name(c)))
+                meta[fname + '.matching'] = c.__name__
+            elif call.func.id == '_group':
+                if len(call.args) != 6 or any(kw.arg not in ('extend', 'recurse') for kw in call.keywords):
+                    raise TranslateError('%s: unexpected arguments of _group' % fname)
+                c = eval(compile(ast.Expression(call.args[1]), '<cls>', 'eval'), ns)
+                flags = {'extend': True, 'recurse': True}
+                for kw in call.keywords:
+                    if not (isinstance(kw.value, ast.Constant) and isinstance(kw.value.value, bool)):
+                        raise TranslateError('%s: non-literal flag of _group' % fname)
+                    flags[kw.arg] = kw.value.value
+                L.append('def %s_group%d_cls : Cls := %s' % (fname, k, _cls_name(c)))
+                L.append('def %s_group%d_extend : Bool := %s' % (fname, k, 'true' if flags['extend'] else 'false'))
+                L.append('def %s_group%d_recurse : Bool := %s' % (fname, k, 'true' if flags['recurse'] else 'false'))
+                meta['%s._group%d' % (fname, k)] = [c.__name__, flags]
+                k += 1
+        # defaults of _group must be what the flags above assume
+        # constant tuples assigned anywhere inside (nested defs get their name as infix)
+        def walk(node, prefix):
+            for ch in ast.iter_child_nodes(node):
+                if isinstance(ch, ast.FunctionDef):
+                    walk(ch, prefix + ch.name + '_')
+                    continue
+                if isinstance(ch, ast.Assign) and len(ch.targets) == 1 and isinstance(ch.targets[0], ast.Name) \
+                        and isinstance(ch.value, (ast.Tuple, ast.BinOp)):
+                    if not _const_expr(ch.value):
+                        raise TranslateError('%s: tuple assignment of unknown shape at line %d' % (fname, ch.lineno))
+                    v = eval(compile(ast.Expression(ch.value), '<tbl>', 'eval'), ns)
+                    ty, term = _table_value(v, '%s%s' % (prefix, ch.targets[0].id))
+                    L.append('def %s%s : %s := %s' % (prefix, ch.targets[0].id, ty, term))
+                    meta[prefix + ch.targets[0].id] = repr(v)
+                elif isinstance(ch, ast.For) and isinstance(ch.iter, ast.Tuple):
+                    if not _const_expr(ch.iter):
+                        raise TranslateError('%s: for-loop over a tuple of unknown shape at line %d' % (fname, ch.lineno))
+                    v = eval(compile(ast.Expression(ch.iter), '<tbl>', 'eval'), ns)
+                    if not all(_is_mpat(x) for x in v):
+                        raise TranslateError('%s: for-loop tuple is not a tuple of (ttype, value) pairs' % fname)
+                    L.append('def %sfor : List MPat := %s' % (prefix, mpats(list(v))))
+                    meta[prefix + 'for'] = repr(v)
+                    walk(ch, prefix)
+                else:
+                    walk(ch, prefix)
+        walk(fn, fname + '_')
+        _inline_constants(fname, fn, ns, L, meta)
+    # the defaults `extend=True, recurse=True` of _group itself
+    gd = funcs['_group']
+    names = [a.arg for a in gd.args.args]
+    defaults = dict(zip(names[len(names) - len(gd.args.defaults):], gd.args.defaults))
+    for flag in ('extend', 'recurse'):
+        d = defaults.get(flag)
+        if not (isinstance(d, ast.Constant) and d.value is True):
+            raise TranslateError('_group: default of %s is not True' % flag)
+    if names[:6] != ['tlist', 'cls', 'match', 'valid_prev', 'valid_next', 'post']:
+        raise TranslateError('_group: parameter list changed: %r' % (names,))
+    L.append('end Sql.Gen')
+    L.append('')
+    return '\n'.join(L)
+
+
 def generate(repo):
     L = ['import SqlModel.Tree', 'namespace Sql.Gen']
     meta = {}
@@ -80,4 +410,9 @@ def generate(repo):
     gen_classes(L, meta)
     L.append('end Sql.Gen')
     L.append('')
-    return {'Tables.lean': '\n'.join(L)}, {'tables': meta}
+    gmeta = {}
+    files = {'Tables.lean': '\n'.join(L), 'GroupingTables.lean': gen_grouping(gmeta)}
+    import translate_filters                      # option table, filter regexes, case tables (formatting side)
+    ffiles, fmeta = translate_filters.generate()
+    files.update(ffiles)
+    return files, {'tables': meta, 'grouping': gmeta, **fmeta}
